@@ -282,6 +282,62 @@ func VerifHarness_RegistrySequence() {
 	zz.Assert(p.PlayerCount() == 0 && len(p.playerNames) == 0, "registry not empty after everyone left")
 }
 
+// Two logins racing for the UUID (and name) of an online player, every interleaving at the registry
+// lock operations (registerConnection releases the lock while it kicks the older session, so it is
+// not one critical section): afterwards every session that was admitted and is still connected is
+// findable, so at most one session per UUID survives and the others were disconnected.
+func VerifHarness_ConcurrentLogins() {
+	zz.MaxLen(1)
+	zz.MaxPreempt(3)
+	kick := zz.Bool()
+	r := newZZReg(kick, 1, 0)
+	p := r.p
+	var id uuid.UUID
+	id[0] = 7
+	old := r.player("a", id)
+	p.playerIDs[id] = old
+	p.playerNames["a"] = old
+	name2 := "a"
+	if zz.Bool() {
+		name2 = "A"
+	}
+	q1 := r.player("a", id)
+	q2 := r.player(name2, id)
+	oldOnline := true
+	if !kick && zz.Bool() {
+		// without kick mode: the name is free, two case variants with different UUIDs race
+		delete(p.playerIDs, id)
+		delete(p.playerNames, "a")
+		q2.profile.ID[0] = 8
+		oldOnline = false
+	}
+	ok1, ok2 := false, false
+	zz.Go(func() { ok1 = p.canRegisterConnection(q1) && p.registerConnection(q1) })
+	zz.Go(func() { ok2 = p.canRegisterConnection(q2) && p.registerConnection(q2) })
+	zz.WaitAll()
+	zz.Assert(!zz.Held(&p.muP), "the registry lock is still held after both logins returned")
+	live := 0
+	for _, pl := range []*connectedPlayer{old, q1, q2} {
+		admitted := (pl == old && oldOnline) || (pl == q1 && ok1) || (pl == q2 && ok2)
+		if admitted && pl.Active() {
+			live++
+			got := p.Player(pl.profile.ID)
+			zz.Assert(got != nil && got.(*connectedPlayer) == pl, "an admitted session that is still connected is not findable by UUID (it was silently replaced)")
+			gotN := p.PlayerByName(pl.profile.Name)
+			zz.Assert(gotN != nil && (kick || gotN.(*connectedPlayer) == pl), "an admitted session that is still connected is not findable by name")
+		}
+	}
+	zz.Assert(p.PlayerCount() == len(p.playerIDs) && p.PlayerCount() <= live, "the registry holds sessions that were never admitted or are gone")
+	if !kick {
+		zz.Assert(len(p.playerNames) == len(p.playerIDs) && live == 1, "without kick mode exactly one of the colliding sessions may be online")
+		zz.Reach("concurrent-no-kick")
+	} else {
+		zz.Assert(ok1 && ok2, "kick mode refused a login")
+		zz.Assert(live == 1, "kick mode: not exactly one session of the UUID survived")
+		zz.Reach("concurrent-kick")
+	}
+}
+
 func VerifMutant_RegistryStep() {
 	zz.MaxLen(1)
 	r := newZZReg(false, 1, 2)
